@@ -103,17 +103,21 @@ def _run_model_one(drv, case):
         m = su.model_2d(drv, case, prog, prog["Frand"] if prog.get("Frand") is not None else su.recorded_frand(0))
         m["is2D"] = True
         return m
+    mi = su.model_init(case)
+    if mi is not None:
+        return mi
     rec = su.record_inputs(case)
     if rec.get("raise"):
-        return {"raise": rec["raise"], "stage": "init"}
+        # the rule says this case constructs; the model cannot echo the implementation
+        return {"raise": None, "stage": "init", "no_constants": rec["raise"]}
     prog = su.programs(case)[0]
     if case.get("Nrep"):
         # repetition i of a study = the single run whose F_rand is the draw of seed i
-        rows = [su.decode_model(drv.call(su.model_request(case, rec, prog=prog, Frand=su.recorded_frand(i), old=True,
+        rows = [su.decode_model(drv.call(su.model_request(case, rec, prog=prog, Frand=su.recorded_frand(i), old=False,
                                                           row_stride=10 ** 9))) for i in range(int(case["Nrep"]))]
         return {"table": rows, "raise": next((m["raise"] for m in rows if m["raise"]), None)}
     fr = prog["Frand"] if prog.get("Frand") is not None else su.recorded_frand(0)
-    r = drv.call(su.model_request(case, rec, prog=prog, Frand=fr, old=True, traces=True, row_stride=10 ** 9))
+    r = drv.call(su.model_request(case, rec, prog=prog, Frand=fr, old=False, traces=True, row_stride=10 ** 9))
     m = su.decode_model(r)
     m["Frand"] = fr
     return m
@@ -131,9 +135,9 @@ def _compare_one(case, impl, model):
     dis = []
     if model is None:
         return dis
-    if impl.get("raise"):
-        if impl["raise"] != model.get("raise"):
-            dis.append(f"init exception: impl {impl['raise']} vs model {model.get('raise')}")
+    if impl.get("raise") or model.get("stage") == "init":
+        if (impl.get("raise") or None) != (model.get("raise") or None):
+            dis.append(f"init exception: impl {impl.get('raise')} vs rule {model.get('raise')}")
         return dis
     run = impl["runs"][0]
     if model.get("is2D"):
@@ -166,6 +170,8 @@ def _compare_one(case, impl, model):
     dt = _dt(case, impl["const"])
     if case["dim"] == "1D" and not close(dt, model["dt"]):
         dis.append(f"dt: derived {dt} vs model {model['dt']}")
+    if res.get("t_nuc") is None:
+        return dis + ["results row of a run that returned has no t_nuc"]
     i_impl = _step_of(res["t_nuc"], dt)
     if i_impl != model["NtCoolEnd"]:
         if _is_tie(model, i_impl):
@@ -305,6 +311,10 @@ def _predicates_one(case, impl):
     dim = case["dim"]
     site = f"_run_{dim}"
     res = run["snap"]["results"]
+    if not isinstance(res, dict) or "raise" in res or any(v is None for v in res.values()):
+        out.append(Failure(clause="stats_at_nucleation_instant", key=f"results_incomplete|{site}|",
+                           detail=f"run() returned but the results row is {res}"))
+        return out
     c = impl["const"]
     dt = _dt(case, c)
     fr = run["Frand"]
@@ -329,17 +339,27 @@ def _predicates_one(case, impl):
         out.append(Failure(clause="history", key=f"cooling_rows_missing|{site}|",
                            detail=f"fewer recorded cooling rows than steps up to t_nuc ({len(T)} vs {i_end + 1})"))
         return out
+    # the code decides `1 - exp(-E) > F_rand` on doubles: evaluate the crossing in F-space. Margin = the
+    # uncertainty of the re-computed E (1e-7 relative) mapped into F, plus the quantisation of F near 1 (4 ulp):
+    # a decision inside the margin is a tie, not a failure (same rule as `compare`)
     E_rand = -math.log1p(-fr) if fr < 1 else math.inf
-    rel = 1e-7
-    if not (E[i_end] > E_rand * (1 - rel)):
+
+    def F_of(e):
+        return 1.0 - math.exp(-e)
+
+    def margin(e):
+        return 1e-7 * e * math.exp(-e) + 4 * 2.220446049250313e-16
+
+    if F_of(E[i_end]) < fr - margin(E[i_end]):
         out.append(Failure(clause="nuc_first_crossing", key=f"nuc_first_crossing|{site}|early",
-                           detail=f"nucleated at step {i_end} although E={E[i_end]!r} has not reached "
-                                  f"-log(1-F_rand)={E_rand!r}"))
-    if i_end > 0 and not (E[i_end - 1] <= E_rand * (1 + rel)):
-        j0 = next(j for j in range(i_end) if E[j] > E_rand * (1 + rel))
+                           detail=f"nucleated at step {i_end} although E={E[i_end]!r} (F={F_of(E[i_end])!r}) has not "
+                                  f"reached F_rand={fr!r} (-log(1-F_rand)={E_rand!r})"))
+    late = [j for j in range(i_end) if F_of(E[j]) > fr + margin(E[j])]
+    if late:
+        j0 = late[0]
         out.append(Failure(clause="nuc_first_crossing", key=f"nuc_first_crossing|{site}|late",
-                           detail=f"nucleated at step {i_end} although E crossed -log(1-F_rand)={E_rand!r} "
-                                  f"already at step {j0} (E={E[j0]!r})"))
+                           detail=f"nucleated at step {i_end} although F_nuc={F_of(E[j0])!r} exceeded F_rand={fr!r} "
+                                  f"already at step {j0} (E={E[j0]!r}, -log(1-F_rand)={E_rand!r})"))
     # coarse cross-check of the volume element with a second quadrature
     Et = _reconstruct_E(case, impl, run, "trapezoid")
     if dim != "0D" and E[i_end] > 0 and not (0.2 < Et[i_end] / E[i_end] < 5.0):
@@ -417,7 +437,7 @@ def compare(case, impl, model):
 
 
 def predicates(case, impl):
-    out = []
+    out = su.init_failures(case, impl, Failure)
     for k, (ck, ik) in enumerate(_views(case, impl)):
         if ik.get("runs") and "snap" not in ik["runs"][0]:
             continue
@@ -559,7 +579,28 @@ def cases_nrep():
                  holds=None, cnTemp=None, Frand=None, frkind="real", Nrep=2, how="sequential", kind="Nrep=2")]
 
 
+def cases_mode_switch():
+    """ONE object whose OperatingConditions had a cnTemp when it was assigned and is switched to stochastic
+    nucleation IN PLACE (`S.opcond.cnTemp = None`), and the reverse: each run must nucleate by the rule of the
+    CURRENT operating conditions (first crossing of the hazard when cnTemp is None)"""
+    def nxt(base, cn):
+        return dict(t_tot=base["t_tot"], start=base["start"], stop=base["stop"], rate=base["rate"], holds=None,
+                    cnTemp=cn, Frand=0.5, edit="cnTemp-in-place")
+
+    p0 = dict(dim="0D", config="shelf", k_s0=100, t_tot=3000, start=20, stop=-50, rate=0.1, holds=None, Frand=0.5,
+              frkind="mid", kind="mode-switch-in-place")
+    h = 0.05
+    dt = su.dt_1d_default(h)
+    p1 = dict(dim="1D", config="shelf", height=h, k_s0=2000, t_tot=5000 * dt, start=20, stop=-50, rate=0.5, holds=None,
+              Frand=0.5, frkind="mid", kind="mode-switch-in-place")
+    return [dict(p0, cnTemp=-5.0, runs=[nxt(p0, None)]),
+            dict(p0, cnTemp=None, runs=[nxt(p0, -8.0), nxt(p0, None)]),
+            dict(p1, cnTemp=-5.0, runs=[nxt(p1, None)])]
+
+
 def cases(rng, tier):
+    for c in cases_mode_switch():
+        yield c
     yield su.jacket_case()
     for c in cases_nrep():
         yield c
